@@ -76,7 +76,8 @@ def energy_second_moment_mps_impl(
     """
     h_square = hamiltonian @ hamiltonian
     h_2 = h_square.expect(state).cpu()
-    assert torch.allclose(h_2.imag, torch.zeros_like(h_2.imag), atol=1e-4)
+    # H @ H is compressed, so <H^2> carries an imaginary part relative to its size
+    assert abs(h_2.imag) <= 1e-4 * max(1.0, abs(h_2.real))
     return h_2.real
 
 
